@@ -1,10 +1,12 @@
 """C19 — configuration of ./check C19 (PROP) and the MANIFEST claim (CLAIM)."""
 PROP = dict(
-    modules=["CG.Props.C19", "CG.Props.Genesis"],
+    modules=["CG.Props.C19", "CG.Props.Genesis", "CG.Props.HashText"],
     required_theorems=["C19_serialisation_80", "C19_serialisation_injective", "C19_ord_numeric", "C19_target_value",
                        "C19_target_total", "C19_validate_eq_spec", "C19_validate_iff", "C19_validate_no_panic",
-                       "C19_median_is_sorted_middle", "C19_genesis_blocks_consistent"],
-    rule="c19.validate: every exponent 0..255 x boundary mantissas x hash at target-1/target/target+1/random; predecessor "
+                       "C19_median_is_sorted_middle", "C19_genesis_blocks_consistent", "C19_hash_text_roundtrip", "C19_hash_text_length", "C19_hash_text_decode_total", "C19_hash_text_is_le_number"],
+    rule="c19.hexenc / c19.hexdec (Hash256::encode / decode): random and boundary hashes; their text in lower, upper and mixed case; one "
+         "character replaced by a non-digit (ASCII neighbours of the digit ranges, whitespace, 2-4 byte UTF-8 characters, a full-width "
+         "digit); prefixes / suffixes (space, newline, 0x, extra digits); digit strings of every length 0..70 and 126..130. c19.validate: every exponent 0..255 x boundary mantissas x hash at target-1/target/target+1/random; predecessor "
          "lists of length 0..15 (+ some longer) with duplicates and a candidate below/at/above the median; c19.cmp: equal, "
          "adjacent, one-byte-different and random 256-bit pairs; c19.hash: random headers with boundary u32 fields. "
          "A case is non-trivial unless it ends in the exponent-range error; distinct by request line.",
